@@ -157,7 +157,48 @@ fn gen_tree(r: &mut Rng, w: usize, depth: u32, scalars: &[(String, usize)], bad:
     }
 }
 
+/// deterministic boundary sweep: every operator x widths {1,8,32,64,65,128} x every pair of
+/// boundary values {0, 1, 2^(w-1)-1, 2^(w-1), 2^w-1, w} (a seeded change that needs ONE
+/// operand pair at ONE width -- e.g. MIN / -1 at width 64 -- is reached without luck)
+const SWEEP_W: [usize; 6] = [1, 8, 32, 64, 65, 128];
+fn sweep_vals(w: usize) -> Vec<BigUint> {
+    let m = pow2(w);
+    let mut v = vec![
+        BigUint::zero(), BigUint::one(), pow2(w - 1).checked_sub(&BigUint::one()).unwrap_or_else(BigUint::zero), pow2(w - 1),
+        m.clone() - BigUint::one(), BigUint::from(w as u64),
+    ];
+    for x in v.iter_mut() { *x = x.clone() % &m; }
+    v.sort();
+    v.dedup();
+    v
+}
+fn sweep_len() -> u64 {
+    SWEEP_W.iter().map(|w| { let k = sweep_vals(*w).len() as u64; k * k * BINOPS.len() as u64 }).sum()
+}
+fn sweep_case(mut idx: u64) -> Case {
+    for w in SWEEP_W.iter() {
+        let vals = sweep_vals(*w);
+        let k = vals.len() as u64;
+        let n = k * k * BINOPS.len() as u64;
+        if idx >= n { idx -= n; continue; }
+        let op = BINOPS[(idx / (k * k)) as usize];
+        let a = vals[((idx / k) % k) as usize].clone();
+        let b = vals[(idx % k) as usize].clone();
+        let (ca, cb) = (Constant::new_big(a.clone(), *w), Constant::new_big(b.clone(), *w));
+        let o = observe(|| apply_bin(op, &ca, &cb));
+        return Case {
+            coq: format!("KBin {} {} {} {} {} {}", op, w, z_big(&a), w, z_big(&b), obs_c(&o)),
+            descr: format!("{} {}:{} {}:{} => {}", op, a, w, b, w, match &o { Obs::Ok(c) => format!("{}", c), x => x.kind() }),
+            tags: vec![format!("op:{}", op), format!("w:{}", wclass(*w)), format!("res:{}", o.kind()), "stream:sweep".into()],
+            nontrivial: true,
+            key: format!("b{}:{}:{}:{}:{}", op, w, a, w, b),
+        };
+    }
+    unreachable!()
+}
+
 fn gen_case(seed: u64, idx: u64) -> Case {
+    // the first fifth of every run walks the boundary sweep (rotated by the seed), the rest is random
     let mut r = Rng::for_case(seed, idx);
     let r = &mut r;
     let kind = r.below(100);
@@ -243,6 +284,12 @@ fn main() {
     let args = parse_args();
     let _ = il::const_(0, 1);
     let idxs: Vec<u64> = match args.only { Some(i) => vec![i], None => (0..args.n).collect() };
-    let cases: Vec<Case> = idxs.iter().map(|i| gen_case(args.seed, *i)).collect();
+    let total = args.extra.get("total").and_then(|v| v.parse().ok()).unwrap_or(args.n);
+    let sl = sweep_len();
+    // sweep share: all of it when n allows (n/2 >= sweep), else a seed-rotated window of n/3 cases
+    let share = if total / 2 >= sl { sl } else { total / 3 };
+    let cases: Vec<Case> = idxs.iter().map(|i| {
+        if *i < share { sweep_case((*i + args.seed.wrapping_mul(7919) % sl.max(1) * (if share < sl { 1 } else { 0 })) % sl) } else { gen_case(args.seed, *i) }
+    }).collect();
     write_cases(&args, "C04", "From Coq Require Import ZArith List NArith.\nFrom Falcon Require Import Base.Res IL.Const IL.Expr IL.C04Check.\nImport ListNotations.\nLocal Open Scope Z_scope.", "ck", &cases, 16, serde_json::json!({}));
 }
